@@ -79,6 +79,16 @@ def run_(tier):
         steps = [rnd.choice(sorted(DOCS)) for _ in range(60 if tier == "quick" else 200)]
         cases.append({"profile": profs[pk], "pkey": pk, "docs": DOCS, "dclasses": DCLASS, "fresh": sorted(set(steps)),
                       "steps": steps, "handles": [rnd.randrange(2) for _ in steps], "varyCfg": True})
+    # (B') revisiting histories, whatever the random ones look like: k documents, all of them again, a newcomer, all of
+    # them once more (anything that remembers the last k inputs is filled, hit, overflowed and queried again)
+    readable = ["fail1", "fail3", "failNested", "noNodes", "pass"]
+    for pk in sorted(profs):
+        for k in (1, 2, 3, 4):
+            for rot in range(2):
+                ds = readable[rot:] + readable[:rot]
+                steps = ds[:k] * 2 + [ds[k]] + ds[:k] + ["notJsonLong"] + ds[:k + 1]
+                cases.append({"profile": profs[pk], "pkey": pk, "docs": DOCS, "dclasses": DCLASS, "fresh": sorted(set(steps)),
+                              "steps": steps, "handles": [0] * len(steps), "varyCfg": False})
     for p, d, name in fx[: (2 if tier == "quick" else 10)]:
         docs = dict(DOCS)
         docs["own"] = d
